@@ -22,6 +22,7 @@ use core::str::Utf8Error;
 use multiboot2_common::{MaybeDynSized, Tag};
 
 const RSDPV1_LENGTH: usize = 20;
+const RSDPV2_LENGTH: usize = 36;
 
 /// This tag contains a copy of RSDP as defined per ACPI 1.0 specification.
 #[derive(Copy, Clone, Debug, PartialEq, Eq, PartialOrd, Ord, Hash)]
@@ -164,6 +165,11 @@ impl RsdpV2Tag {
     /// Validation of the RSDPv2 extended checksum
     #[must_use]
     pub fn checksum_is_valid(&self) -> bool {
+        // The RSDP embedded in this tag has 36 bytes. A length exceeding that
+        // can't be checked (and must not be read).
+        if self.length as usize > RSDPV2_LENGTH {
+            return false;
+        }
         let bytes = unsafe {
             slice::from_raw_parts(self as *const _ as *const u8, self.length as usize + 8)
         };
